@@ -205,7 +205,7 @@ fn main() {
     let (mut obs, mut ops, mut cases) = (mk("impl.txt"), mk("ops.txt"), mk("cases.txt"));
     let mut rng = Rng::new(seed);
     let kind: u32 = u32::from(mode == "capture");
-    if mode == "file" {
+    if mode == "file" || mode == "replay" {
         let text = std::fs::read_to_string(get("--in", "inputs.txt")).unwrap();
         for line in text.lines() {
             let t: Vec<&str> = line.split_whitespace().collect();
